@@ -145,6 +145,33 @@ pub fn a_altresize(_cfg: &Cfg, rs: &[(usize, usize)]) -> Vec<Op> {
     v
 }
 
+/// The core of the save / alternate screen / resize interplay, small enough to go twice as
+/// deep as `a_altresize`: each saved context is clamped when its screen is resized - also the
+/// one of the screen that is not showing, also after the switch back.
+pub fn a_core_deep(cfg: &Cfg) -> Vec<Op> {
+    vec![
+        c(DecSet(vec![1047])),
+        c(DecRst(vec![1047])),
+        c(DecSet(vec![1049])),
+        c(DecRst(vec![1049])),
+        c(Cup(Some(99), Some(99))),
+        c(Decsc),
+        c(Decrc),
+        Op::resize(cfg.cols.max(2) - 1, cfg.rows.max(2) - 1),
+        Op::resize(cfg.cols, cfg.rows),
+        t("ab"),
+    ]
+}
+
+/// widths around the multiples of 8, tab movement, stops set and cleared
+pub fn a_tab_widths(_cfg: &Cfg) -> Vec<Op> {
+    let mut v = vec![c(Ht), c(Cht(Some(3))), c(Cbt(None)), c(Cr), t("a"), c(Hts), c(Tbc(None)), c(Tbc(Some(3))), c(Cha(Some(99)))];
+    for w in [7usize, 8, 9, 15, 16, 17, 24] {
+        v.push(Op::resize(w, 1));
+    }
+    v
+}
+
 /// Parameters far outside the screen, parameter-count and sub-parameter
 /// overflow, every C1 control, DEL, a non-BMP scalar.
 pub fn a_extreme() -> Vec<Op> {
